@@ -11,7 +11,7 @@ git -C /repo archive HEAD | tar -x -C "$work"
 cd "$work"
 git init -q . && git add -A >/dev/null && git -c user.email=x -c user.name=x commit -qm base
 res() { echo "SEEDVERIFY id=$id $*"; }
-if ! patch -p1 --fuzz=3 -s < "$cand/patch.diff" >/dev/null 2>&1; then res "status=PATCH_DOES_NOT_APPLY"; cd /; rm -rf "$work"; exit 1; fi
+if ! git apply "$cand/patch.diff" >/dev/null 2>&1; then res "status=PATCH_DOES_NOT_APPLY"; cd /; rm -rf "$work"; exit 1; fi
 git diff > "$work/normalized.diff"
 suite=$(cargo test --workspace --no-fail-fast --offline 2>&1 | grep -E "^test result" | head -1)
 case "$suite" in *"66 passed; 0 failed"*) ;; *) res "status=SUITE_FAILS_WITH_PATCH suite='$suite'"; cd /; rm -rf "$work"; exit 1;; esac
